@@ -1017,6 +1017,27 @@ def f(x: fp.Real, y: fp.Real) -> tuple[fp.Real, fp.Real]:
     return (r, s)
 ''', 'f', ['real', 'real'], ['semantics', 'context'])
 
+prog('sem_counts_are_exact', '''
+@fp.fpy
+def f(xs: list[fp.Real], x: fp.Real) -> tuple[fp.Real, fp.Real, fp.Real]:
+    with C1:
+        n = fp.size(xs, 0)
+        d = fp.dim([xs, xs])
+        l = len(xs)
+    return (n + x, d + x, l + x)
+''', 'f', [('list', [3, 1, 2]), 'real'], ['semantics', 'list', 'no_tv'])
+
+prog('sem_variable_named_list', '''
+@fp.fpy
+def f(xs: list[fp.Real], ys: list[fp.Real]) -> fp.Real:
+    list = xs
+    t = 0
+    with C4:
+        for a, b in zip(list, ys):
+            t = t + a * b
+    return t
+''', 'f', [('list', [1, 2]), ('list', 'same')], ['semantics', 'list', 'no_tv'])
+
 # ---- analysis facts (C13 / C14 part 2) ----------------------------------------------------------------------------
 prog('vc_underflow_product', '''
 @fp.fpy
